@@ -382,7 +382,26 @@ def execute(ctx, case):
     ctx.count('all-single-cuts streams')
 
 
+def big_batch_cases():
+  """One message carrying more datapoints than the relay's own MAX_DATAPOINTS_PER_MESSAGE (clients are free to),
+  directly followed by a small one: same order whether they arrive in one segment or apart."""
+  big = [('srv.é.m%04d' % i, (1500000000 + i, float(i))) for i in range(1200)]
+  tail = [('srv.tail.a', (1600000000, 1.0)), ('srv.tail.b', (1600000001, 2.0))]
+  exp = [[n, float(t), v] for n, (t, v) in big + tail]
+  f1 = pickle.dumps(big, protocol=2)
+  f2 = pickle.dumps(tail, protocol=2)
+  stream = struct.pack('!I', len(f1)) + f1 + struct.pack('!I', len(f2)) + f2
+  bounds = [4 + len(f1), len(stream)]
+  for cuts in ([], [4 + len(f1)], [100, 4 + len(f1) - 7], [4 + len(f1) + 2]):
+    yield {'listener': 'pickle', 'stream': stream.hex(), 'cuts': cuts, 'bounds': bounds, 'expected': exp, 'classes': ['message above 500 datapoints'], 'flow': None}
+  lines = ''.join('%s %s %d\n' % (n, v, t) for n, (t, v) in big + tail).encode('utf-8')
+  yield {'listener': 'line', 'stream': lines.hex(), 'cuts': [len(lines) // 2], 'bounds': [], 'expected': exp, 'classes': ['message above 500 datapoints'], 'flow': None}
+
+
 def run(ctx):
+  if (ctx.shard or 0) == 0:
+    for case in big_batch_cases():
+      execute(ctx, case)
   n = ctx.scale(450, 2500)
   run_given(ctx, line_cases(), execute, n, salt=1)
   run_given(ctx, pickle_cases(), execute, n, salt=2)
